@@ -165,6 +165,17 @@ def forced():
                                                     st_pause("c3", b"web", 10 * SEC, async_=False), st_req("r1"), st_sleep(SEC),
                                                     st_resume("c4", b"web", async_=False), st_req("r2")] + st_end(),
                                           "expect": {"r1": "ta:80", "r2": "ta:80"}}))
+    # "only GETs whose path is exactly the health-check path are answered 200 by the proxy": a service mounted under a prefix
+    # (stripped for the target or not), paused / stopped: GET <prefix>/up is NOT the health-check path /up - it is held and
+    # released like any other request (paused) / answered 503 (stopped); so is POST /up of a root service
+    for strip in (True, False):
+        dep = dict(st_deploy("c1", b"web", [b"ta:80"]), prefixes=[H(b"/api")], strip=strip)
+        out.append(("prefixed-health-path-%s" % ("strip" if strip else "keep"),
+                    {"steps": [dep, st_req("r1", uri=b"/api/up"), st_sleep(SEC // 10), st_pause("c2", b"web", 20 * SEC, async_=False),
+                               st_req("r2", uri=b"/api/up"), st_req("r3", uri=b"/api/up?x=1"), st_req("r4", uri=b"/api/x"), st_sleep(SEC),
+                               st_resume("c3", b"web", async_=False), st_sleep(SEC // 10), st_stop("c4", b"web", async_=False),
+                               st_req("r5", uri=b"/api/up"), st_sleep(SEC // 10), st_resume("c5", b"web", async_=False), st_req("r6", uri=b"/api/up")] + st_end(),
+                     "expect": {"r1": "ta:80", "r2": "ta:80", "r3": "ta:80", "r4": "ta:80", "r6": "ta:80"}}))
     return out
 
 
